@@ -9,7 +9,9 @@ from ..absval import abstractor
 from ..engine import Engine
 from ..model import AnalysisError, dotted, norm
 from ..report import Report
+from .. import sym
 from .common import own_nodes, returns
+from .symutil import S, branches, dnf, is_, mentions, sh, unobj
 
 EXPLANATION = (
     "TYPECMP: a value whose declared type admits an array (np.ndarray / Sequence / ArrayLike) as well as a string mode literal is never compared with `==`/`!=` to a string literal in a truth context "
@@ -58,9 +60,9 @@ def run(E: Engine, rep: Report, tier: str) -> dict:
                 continue
             n_cmp += 1
             ab = ab or abstractor(fl)
-            dnf = ab.enclosing_conditions(n)
+            dnf_ = ab.enclosing_conditions(n)
             text = norm(other[0])
-            guarded = all(any(l.truth is not None and l.positive and l.text.replace(" ", "").startswith(f"isinstance({text},".replace(" ", "")) and "str" in l.text for l in c) for c in dnf)
+            guarded = all(any(l.truth is not None and l.positive and l.text.replace(" ", "").startswith(f"isinstance({text},".replace(" ", "")) and "str" in l.text for l in c) for c in dnf_)
             key = f"{f.short}|{text}|{type(n.ops[0]).__name__}|{lit[0].value}"
             rep.check(guarded, "TYPECMP", key, f"`{norm(n)}` evaluated only after isinstance({text}, str)",
                       f"`{norm(n)}`: `{text}` is declared as {sorted(a[0] + (':' + a[1].split('.')[-1] if len(a) > 1 and isinstance(a[1], str) else '') for a in t)} -- when it holds an array the comparison yields an array and its truth value raises ValueError; guard it with isinstance({text}, str) as the other call sites do", E.where(f, n))
@@ -93,14 +95,26 @@ def run(E: Engine, rep: Report, tier: str) -> dict:
         ok = re.search(r"ground-rydberg``.*?\|r\\rangle \\rightarrow 1", doc, re.S) and re.search(r"digital``.*?\|h\\rangle \\rightarrow 1", doc, re.S) and re.search(r"XY``.*?\|1\\rangle \\rightarrow 1", doc, re.S)
         rep.check(bool(ok), "TABLE", "docs|spam-table", "documented: r->1, h->1, |1>->1", "the documented SPAM table changed", "docs/source/conventions.md")
     # ground-rydberg vector order reversed exactly once in the 2-level branch
-    rev = [n for n in own_nodes(w) if isinstance(n, ast.IfExp) and norm(n.body) == "probs[::-1]"]
-    ok = len(rev) == 1 and norm(rev[0].test).replace('"', "'") == "self.meas_basis == 'ground-rydberg'" and norm(rev[0].orelse) == "probs"
-    rep.check(ok, "TABLE", "QutipResult._weights|reverse-only-ground-rydberg", "qubit probabilities reversed iff measuring in ground-rydberg (r is the first vector but reads 1)", "the reversal of the two-level probabilities changed", E.where(w))
-    nrm = any(isinstance(r.value, ast.Call) and "weights / sum(weights)" in norm(r.value) or "weights / sum(weights)" in norm(r.value) for r in returns(w))
+    rw = S(E, w).ret
+    if rw is None:
+        raise AnalysisError("anchor: QutipResult._weights returns nothing")
+    revs = {m_["@"] for m_ in sym.find_all(rw, sym.Pattern("Q_p[::-1]"))}
+    cond_revs = {m_["Q_p"] for m_ in sym.find_all(rw, sym.Pattern("Q_p[::-1] if self.meas_basis == 'ground-rydberg' else Q_p"))}
+    ok = len(revs) == 1 and len(cond_revs) == 1 and all(r_[1] in cond_revs for r_ in revs)
+    rep.check(ok, "TABLE", "QutipResult._weights|reverse-only-ground-rydberg", "qubit probabilities reversed iff measuring in ground-rydberg (r is the first vector but reads 1)", f"the reversal of the two-level probabilities changed ({len(revs)} reversal(s), {len(cond_revs)} conditioned on meas_basis == 'ground-rydberg')", E.where(w))
+    nrm = is_(rw, "Q_w / sum(Q_w)") is not None or is_(rw, "Q_w / np.sum(Q_w)") is not None or is_(rw, "Q_w / Q_w.sum()") is not None
     rep.check(nrm, "TABLE", "QutipResult._weights|normalised", "weights / sum(weights)", "sampling weights are no longer normalised", E.where(w))
     bp = E.fn("pulser_simulation.qutip_state.QutipState.bitstring_probabilities")
-    src = norm(bp.node)
-    rep.check("state_str.replace(one_state, '1')" in src and "bitstring.replace(s_, '0')" in src and "set(self.eigenstates) - {one_state}" in src, "TABLE", "QutipState.bitstring_probabilities|one->1-others->0", "the one-state reads 1, every other eigenstate reads 0", "bitstring conversion changed", E.where(bp))
+    keys_ = [l.target[2] for l in S(E, bp).logged("aug", "store") if l.target is not None and l.target[0] == "idx"]
+    ok = False
+    for k_ in keys_:
+        ones = [m_ for m_ in sym.find_all(k_, sym.Pattern("Q_s.replace(Q_one, '1')"))]
+        zeros = [m_ for m_ in sym.find_all(k_, sym.Pattern("Q_s.replace(Q_z, '0')"))]
+        for mo in ones:
+            for mz in zeros:
+                z = mz["Q_z"]
+                ok = ok or (z[0] == "elem" and is_(unobj(z[1]), "set(self.eigenstates) - {Q_one}", {"Q_one": mo["Q_one"]}) is not None and sym.contains(mo["Q_one"], sym.Pattern("self.infer_one_state()").term))
+    rep.check(ok, "TABLE", "QutipState.bitstring_probabilities|one->1-others->0", "the one-state reads 1, every other eigenstate reads 0", "bitstring conversion changed: the key must replace the inferred one-state by '1' and every other eigenstate by '0'", E.where(bp))
     rep.floor("TABLE", 8)
 
     # ---------------------------------------------------------------- SIB
@@ -148,8 +162,6 @@ def run(E: Engine, rep: Report, tier: str) -> dict:
     rep.floor("SIB", 5)
 
     # ------------------------------------------------- SIB: the unflipped sample is returned only when no bit can flip
-    from .. import sym
-    from .symutil import S, branches, dnf, is_, mentions, sh
 
     def rate_of(t) -> str:
         if t[0] == "idx" and t[2][0] == "const":
